@@ -143,10 +143,18 @@ func opGroupAndMeta(r *rand.Rand, scenarios int) {
 				}
 			}
 		}
-		if r.Intn(2) == 0 { // every API version: each broker advertises its own upper bound for the group / metadata APIs
+		ladder := int16(-1) // the first scenarios walk OffsetFetch / OffsetCommit through every version, with a group-level failure
+		if s < 6 {
+			ladder = int16(s)
+		}
+		if ladder >= 0 || r.Intn(2) == 0 { // every API version: each broker advertises its own upper bound for the group / metadata APIs
 			for _, id := range ids {
+				ofMax := int16(r.Intn(7))
+				if ladder >= 0 {
+					ofMax = ladder
+				}
 				c.Brokers[id].Versions = map[protocol.ApiKey]fakecluster.VRange{
-					protocol.OffsetFetch:  {Min: 0, Max: int16(r.Intn(7))},
+					protocol.OffsetFetch:  {Min: 0, Max: ofMax},
 					protocol.OffsetCommit: {Min: 0, Max: int16(r.Intn(9))},
 					protocol.Metadata:     {Min: 0, Max: int16(1 + r.Intn(9))},
 				}
@@ -180,7 +188,7 @@ func opGroupAndMeta(r *rand.Rand, scenarios int) {
 		for i := 0; i < 12; i++ {
 			c.Lock()
 			delete(c.GroupErr, group)
-			if r.Intn(8) == 0 { // e.g. COORDINATOR_LOAD_IN_PROGRESS / GROUP_AUTHORIZATION_FAILED
+			if r.Intn(8) == 0 || (ladder >= 0 && i%4 == 1) { // e.g. COORDINATOR_LOAD_IN_PROGRESS / GROUP_AUTHORIZATION_FAILED
 				c.GroupErr[group] = int16([]int{14, 30}[r.Intn(2)])
 			}
 			c.Unlock()
